@@ -106,12 +106,38 @@ class Walker:
                     and s.targets[0].attr.startswith("__ptera_"):
                 self.emit("transform.py", s, "writeMeta")
             elif isinstance(s, ast.If):
-                self.emit("transform.py", s, "writeMeta")
-                # `fn.__globals__[token] = fn` inside the conditional: the variant's self-reference
-                for n in ast.walk(s):
-                    if isinstance(n, ast.Assign) and isinstance(n.targets[0], ast.Subscript) \
-                            and is_attr(n.targets[0].value, "fn", "__globals__"):
-                        self.emit("transform.py", n, "writeToken")
+                # `if info is not None:` / `if info is None:` — the branch taken is decided by the variant
+                t = s.test
+                if not (isinstance(t, ast.Compare) and isinstance(t.left, ast.Name) and t.left.id == "info"
+                        and len(t.ops) == 1 and isinstance(t.ops[0], (ast.Is, ast.IsNot))
+                        and isinstance(t.comparators[0], ast.Constant) and t.comparators[0].value is None):
+                    raise ExtractError("_apply: unrecognised condition at line %d" % s.lineno)
+                pol = "some" if isinstance(t.ops[0], ast.IsNot) else "none"
+                # (the test itself reads a local variable: not a step)
+                for branch, bp in ((s.body, pol), (s.orelse, "none" if pol == "some" else "some")):
+                    for n in branch:
+                        if isinstance(n, ast.Assign) and isinstance(n.targets[0], ast.Subscript) \
+                                and is_attr(n.targets[0].value, "fn", "__globals__"):
+                            # `fn.__globals__[token] = fn`: the variant's self-reference
+                            if bp != "some":
+                                raise ExtractError("_apply: the token is written for the original code (line %d)" % n.lineno)
+                            self.emit("transform.py", n, "writeToken")
+                        elif isinstance(n, ast.Assign) and is_attr(n.targets[0], "fn", "__ptera_info__"):
+                            if bp != "some":
+                                raise ExtractError("_apply: __ptera_info__ assigned for the original code (line %d)" % n.lineno)
+                            self.emit("transform.py", n, "setInfo")
+                        elif isinstance(n, ast.Assign) and isinstance(n.targets[0], ast.Attribute) \
+                                and n.targets[0].attr.startswith("__ptera_"):
+                            self.emit("transform.py", n, "writeMeta")
+                        elif isinstance(n, ast.For) and any(
+                                isinstance(c, ast.Call) and isinstance(c.func, ast.Name) and c.func.id == "delattr"
+                                for c in ast.walk(n)) and any(
+                                isinstance(c, ast.Constant) and c.value == "__ptera_info__" for c in ast.walk(n.iter)):
+                            if bp != "none":
+                                raise ExtractError("_apply: __ptera_info__ removed for a variant (line %d)" % n.lineno)
+                            self.emit("transform.py", n, "dropInfo")
+                        else:
+                            raise ExtractError("_apply: unrecognised statement at line %d" % n.lineno)
             else:
                 raise ExtractError("_apply: unrecognised statement at line %d" % s.lineno)
 
@@ -182,8 +208,26 @@ class Walker:
                 raise ExtractError("overlay tooling: unrecognised statement at line %d" % s.lineno)
 
 
+def bystander_lines(w):
+    """a thread whose probe is on another function calls the shared function: the code object is read at the
+    call, and the code it got reads its function's `__ptera_info__` in overlay.fits_selector"""
+    fn = find_func(w.ov.body, "fits_selector")
+    for s in fn.body:
+        if isinstance(s, ast.Assign) and isinstance(s.targets[0], ast.Name) and s.targets[0].id == "fvars":
+            v = s.value
+            if is_attr(v, "pfn", "__ptera_info__"):
+                return [("call", 0, ["callFetch"]), ("overlay.py", s.lineno, ["callEnter"])]
+            if (isinstance(v, ast.Call) and isinstance(v.func, ast.Name) and v.func.id == "getattr" and len(v.args) == 3
+                    and isinstance(v.args[0], ast.Name) and v.args[0].id == "pfn"
+                    and isinstance(v.args[1], ast.Constant) and v.args[1].value == "__ptera_info__"):
+                return [("call", 0, ["callFetch"]), ("overlay.py", s.lineno, ["callEnterTolerant"])]
+            raise ExtractError("fits_selector: unrecognised read of the variable table at line %d" % s.lineno)
+    raise ExtractError("fits_selector does not read the variable table into `fvars`")
+
+
 def gen_steps():
     w = Walker()
+    by = bystander_lines(w)
     w.tooler()
     tool = w.out
     w.out = []
@@ -200,6 +244,8 @@ def gen_steps():
          "/-- `_tooler(fn, captures)`: (file, line, atomic steps of that line), in program order -/",
          render("toolerLines", tool),
          "/-- `_untooler(fn, captures)` -/", render("untoolerLines", untool),
+         "/-- a call of the function by a thread whose own probe is on another function -/",
+         render("bystanderLines", by),
          "end Ptera.Generated.Steps"]
     return "\n".join(o) + "\n"
 
